@@ -169,7 +169,7 @@ structure ApiObs where
   deriving DecidableEq, Repr
 
 inductive Ev where
-  | cb (k : Key) (o : Obs)
+  | cb (k : Key) (vis : Bool) (o : Obs)   -- `vis = false`: the library's empty default ran (no user code there)
   | act (k : Key) (a : Action)
   | log (inst : Nat) (r : LogRec)
   | api (inst op : Nat) (name : String) (o : ApiObs)
@@ -312,10 +312,9 @@ def deliverLayer (env : Env) (m : Method) (sid : Nat) (current pending : Tr) (la
   let occ := occOf s.seen (m, sid, layer)
   let key : Key := ⟨env.inst, env.op, occ, m, sid, layer⟩
   let s1 := { s with seen := (m, sid, layer) :: s.seen }
-  if observable env.cfg sid m layer then
-    ((emit fun st => [.cb key (observe env fl sid current pending st.core)]) ⋙
-      runActions env fl sid key (env.beh key)) s1
-  else (s1, [])
+  let vis := observable env.cfg sid m layer
+  ((emit fun st => [.cb key vis (observe env fl sid current pending st.core)]) ⋙
+    (if vis then runActions env fl sid key (env.beh key) else skip)) s1
 
 /-- `S_::deepX`: log record, then the layers in the order of `Ancestors.deep` -/
 def deliver (env : Env) (m : Method) (sid : Nat) (current pending : Tr) : Step :=
